@@ -651,8 +651,8 @@ MUTANTS = [
     dict(id="setitem-writes-in-place", module=_V, old="		new_tuple = tuple(data_list)\n		old_id = id(underlying)",
          new="		new_tuple = tuple(data_list)\n		underlying[0:0] = ()\n		old_id = id(underlying)", rules=["a.no-inplace"]),
     dict(id="elementwise-clears-operand-name", module=_V,
-         old="			result_dtype = infer_dtype(result_values)\n			return Vector(result_values,\n							dtype=result_dtype,\n							name=None,\n							as_row=self._display_as_row)\n\n		if isinstance(other, Iterable)",
-         new="			result_dtype = infer_dtype(result_values)\n			other._name = None\n			return Vector(result_values,\n							dtype=result_dtype,\n							name=None,\n							as_row=self._display_as_row)\n\n		if isinstance(other, Iterable)",
+         old="			result_dtype = infer_dtype(result_values)\n			return Vector(result_values,\n							dtype=result_dtype,\n							name=None,\n							as_row=self._display_as_row)\n\n		# (a mapping is ONE operand",
+         new="			result_dtype = infer_dtype(result_values)\n			other._name = None\n			return Vector(result_values,\n							dtype=result_dtype,\n							name=None,\n							as_row=self._display_as_row)\n\n		# (a mapping is ONE operand",
          rules=["c.pure"]),
     dict(id="check-writable-after-updates", module=_V,
          edits=[(_V, "		_alias = _ALIAS_TRACKER\n		_alias.check_writable(self, id(self._underlying))\n", "		_alias = _ALIAS_TRACKER\n", 1),
